@@ -77,8 +77,47 @@ pub fn run(ctx: &Ctx) -> Report {
         let slot = if e.shadow { format!("{}@{}", cid, e.name.split("::").next().unwrap_or("")) } else { cid.clone() };
         xlog.insert(slot, J::A(log));
     }
+    // the hazmat round functions are also "what the crate computes" in every configuration
+    #[cfg(feature = "hazmat")]
+    if ctx.wants_name("aes::hazmat") {
+        let mut rng = ctx.rng("xconfig:aes::hazmat");
+        let mut log: Vec<J> = Vec::new();
+        for i in 0..ctx.budget(400, 6000, 4) {
+            let cl = gen::pick_class(&mut rng, i);
+            let mut blocks: aes::hazmat::Block8 = Default::default();
+            let mut keys: aes::hazmat::Block8 = Default::default();
+            for j in 0..8 {
+                blocks[j].copy_from_slice(&gen::gen(&mut rng, 16, if j % 2 == 0 { 0 } else { cl }));
+                keys[j].copy_from_slice(&gen::gen(&mut rng, 16, 0));
+            }
+            let mut acc = 0u64;
+            let mut b = blocks.clone();
+            aes::hazmat::cipher_round_par(&mut b, &keys);
+            acc = acc.rotate_left(9) ^ super::total::digest(&flat(&b));
+            let mut b = blocks.clone();
+            aes::hazmat::equiv_inv_cipher_round_par(&mut b, &keys);
+            acc = acc.rotate_left(9) ^ super::total::digest(&flat(&b));
+            let mut x = blocks[0].clone();
+            aes::hazmat::cipher_round(&mut x, &keys[0]);
+            aes::hazmat::equiv_inv_cipher_round(&mut x, &keys[1]);
+            aes::hazmat::mix_columns(&mut x);
+            acc = acc.rotate_left(9) ^ super::total::digest(&x);
+            aes::hazmat::inv_mix_columns(&mut x);
+            aes::hazmat::inv_mix_columns(&mut x);
+            acc = acc.rotate_left(9) ^ super::total::digest(&x);
+            rep.case(case_hash("aes::hazmat", &flat(&keys), &flat(&blocks), 2), true);
+            log.push(J::S(format!("{:016x}", acc)));
+        }
+        rep.set("aes::hazmat", "cases", log.len() as i64);
+        xlog.insert("aes::hazmat#functions".into(), J::A(log));
+    }
     rep.extra.insert("x_log".into(), J::O(xlog));
     rep
+}
+
+#[cfg(feature = "hazmat")]
+fn flat(b: &aes::hazmat::Block8) -> Vec<u8> {
+    b.iter().flat_map(|x| x.iter().cloned()).collect()
 }
 
 fn e_block(e: &crate::registry::Entry) -> usize {
